@@ -302,11 +302,12 @@ Theorem push_clone_panics c v u xs bs t0 k :
   (vlen v < vcap v \/ grow_ok c v (vcap v + 1)) ->
   exists v' u',
     push_unchecked c (VClone bs k) (v, u) = Panic PUser (v', u') /\
-    Rep c v' xs /\ unext u' = unext u /\ ufuse u' = None /\ uevents u' = uevents u.
+    Rep c v' xs /\ unext u' = unext u /\ ufuse u' = None /\ uevents u' = uevents u /\
+    vbk v' = vbk v /\ (vlen v < vcap v -> vcap v' = vcap v).
 Proof.
   intros Hwf HR Hd Hf Hg.
   destruct (reserve_one_ok c v u xs Hwf HR Hg)
-    as (v1 & u1 & E1 & HR1 & Hlt & Hl & Hbk & (Hsn & Hsf & Hse) & _).
+    as (v1 & u1 & E1 & HR1 & Hlt & Hl & Hbk & (Hsn & Hsf & Hse) & Hsame).
   unfold push_unchecked. bstep E1.
   assert (Eg : getv (v1, u1) = Ok v1 (v1, u1)) by reflexivity. bstep Eg.
   cbn [write_value].
@@ -314,7 +315,8 @@ Proof.
   assert (Ec := clone_into_panics c bs t0 (bo c (vlen v1)) v1 u1 Hd (tick_zero _ Hf1)).
   rewrite (bind_panic _ _ _ _ _ Ec).
   eexists _, _. split; [reflexivity|].
-  split; [exact HR1|]. split; [exact Hsn|]. split; [reflexivity|]. exact Hse.
+  split; [exact HR1|]. split; [exact Hsn|]. split; [reflexivity|]. split; [exact Hse|].
+  split; [exact Hbk|]. intros Hroom. rewrite (proj1 (Hsame Hroom)). reflexivity.
 Qed.
 
 (** a Clone that panics inside insert: the tail is hidden (leaked), the visible prefix is
@@ -324,7 +326,8 @@ Theorem insert_clone_panics c v u xs bs t0 k i :
   (vlen v < vcap v \/ grow_ok c v (vcap v + 1)) ->
   exists v' u',
     insert_unchecked c (N.of_nat i) (VClone bs k) (v, u) = Panic PUser (v', u') /\
-    Rep c v' (firstn i xs) /\ unext u' = unext u /\ ufuse u' = None /\ uevents u' = uevents u.
+    Rep c v' (firstn i xs) /\ unext u' = unext u /\ ufuse u' = None /\ uevents u' = uevents u /\
+    vbk v' = vbk v /\ (vlen v < vcap v -> vcap v' = vcap v).
 Proof.
   intros Hwf HR Hd Hf Hi Hg.
   destruct (insert_prefix_run c v u xs i (VClone bs k) Hwf HR Hi Hg)
@@ -336,7 +339,7 @@ Proof.
   assert (Ec := clone_into_panics c bs t0 (i * szn c) vs u1 Hd (tick_zero _ Hf1)).
   rewrite (bind_panic _ _ _ _ _ Ec).
   eexists _, _. split; [reflexivity|].
-  split; [|split; [exact Hsn|split; [reflexivity|exact Hse]]].
+  split; [|split; [exact Hsn|split; [reflexivity|split; [exact Hse|split; [exact Hbk|intros Hroom; unfold vs; cbn [vcap with_mem with_len]; rewrite (Hsame Hroom); reflexivity]]]]].
   pose proof (rep_prefix c v1 xs i HR1 Hi) as HRp.
   pose proof (rep_len _ _ _ HR1) as Hlen1.
   pose proof (rep_store _ _ _ HR1) as Hst1. unfold store_ok in Hst1. rewrite capbytes in Hst1.
